@@ -67,7 +67,11 @@ Trained ==
             C("fit-equals-fresh-clone", clean' => Close(Ev.pred, Ev.ref)),
             C("equal-model-equal-predictions",
               \A k \in SameModel(model') : Close(memo[k][2], Ev.pred)),
-            C("pair-has-equal-labeled-part", Cardinality(SameModel(model')) >= Ev.match)})
+            C("pair-has-equal-labeled-part", Cardinality(SameModel(model')) >= Ev.match),
+            \* wrappers around scikit-learn estimators: `base` are the predictions of the wrapped estimator
+            \* given fit / partial_fit on the labeled rows of the same calls (<<>>: it has nothing to say)
+            C("wrapper-follows-the-wrapped-estimator-on-the-labeled-history",
+              Ev.base = <<>> \/ (Len(Ev.pred) >= Len(Ev.base) /\ Close(SubSeq(Ev.pred, 1, Len(Ev.base)), Ev.base)))})
     /\ memo' = Append(memo, <<model', Ev.pred>>)
 
 TFit        == IsEvent("Fit") /\ Fit(Ev.d) /\ Trained
